@@ -92,7 +92,7 @@ def run_job(engine, job, keep_events=False):
     else:
         rng = core.derive_rng(job['seed'], job['prop'], job['index'])
         sc = engine.generate(rng, job['prop'], job['tier'], job['index'])
-    r = engine.execute(sc)
+    r = core.isolated(engine.execute, sc)
     core.finish_result(r, keep_events)
     return [(sc, r)]
 
@@ -124,7 +124,8 @@ def _wrun(item):
         faulthandler.cancel_dump_traceback_later()
 
 
-def run_jobs(engine_name, jobs, wall_cap, workers=None, n_samples=4):
+def run_jobs(engine_name, jobs, wall_cap, workers=None, n_samples=4,
+             chunk=None):
     import concurrent.futures
     import multiprocessing
     workers = workers or core.n_workers()
@@ -132,7 +133,7 @@ def run_jobs(engine_name, jobs, wall_cap, workers=None, n_samples=4):
     items = [(i, j, i < n_samples or (j.get('enum') and i % 97 == 0))
              for i, j in enumerate(jobs)]
     out = [None] * len(items)
-    chunk = max(1, min(50, len(items) // (workers * 6) or 1))
+    chunk = chunk or max(1, min(50, len(items) // (workers * 6) or 1))
     ex = concurrent.futures.ProcessPoolExecutor(
         max_workers=workers, mp_context=ctx, initializer=_winit,
         initargs=(engine_name,))
@@ -188,7 +189,7 @@ def run_check(prop, tier, runs_override=None):
     else:
         jobs = default_jobs(engine, prop, tier, seed, runs)
     log('picosim: %d jobs' % len(jobs))
-    results = run_jobs(engine_name, jobs, wall_cap)
+    results = run_jobs(engine_name, jobs, wall_cap, chunk=plan.get('chunk'))
 
     agg = core.Agg()
     samples = []
@@ -383,7 +384,7 @@ def run_replay(prop, path):
     want = doc.get('violation') or {}
     log('picosim: replaying %s (property %s, expected class %s)' % (
         path, prop, want.get('vclass')))
-    r = engine.execute(sc)
+    r = core.isolated(engine.execute, sc)
     core.finish_result(r, keep_events=True)
     for e in r['events'][-60:]:
         log('  event: %s' % (core.dumps(e)[:300],))
